@@ -51,7 +51,7 @@ func genC16(t *rapid.T) c16Case {
 		var ss []Sample
 		for len(ss) < ns {
 			more := genSamples(t, c.Cfg, ns)
-			if len(ss) > 0 && c.Cfg.Windowed {
+			if len(ss) > 0 && (c.Cfg.Windowed || c.Cfg.Outer2 == "windowed") {
 				off := ss[len(ss)-1].Start
 				for i := range more {
 					more[i].Start += off
@@ -77,6 +77,17 @@ type c16Listener struct {
 
 func runC16(_ *testing.T, c c16Case) kit.Outcome {
 	b := buildLimit(c.Cfg, nil)
+	// reference models of the windowed layers, outermost first: what the recording pass-through below the wrappers
+	// must have received is the composition of their folds ("aggregated per C09")
+	var folds []*winFold
+	if c.Cfg.Outer2 == "windowed" {
+		folds = append(folds, newWinFold(c.Cfg.Win2Size, c.Cfg.Win2Min, c.Cfg.Win2Max, c.Cfg.Win2Threshold))
+	}
+	if c.Cfg.Windowed {
+		folds = append(folds, newWinFold(c.Cfg.WinSize, c.Cfg.WinMin, c.Cfg.WinMax, c.Cfg.WinThreshold))
+	}
+	var wantTap []Sample
+	foldsAmbiguous := false
 	var ls []*c16Listener
 	changes, ups, downs := 0, 0, 0
 	lateReg := false
@@ -114,7 +125,27 @@ func runC16(_ *testing.T, c c16Case) kit.Outcome {
 		if in := b.Inner.EstimatedLimit(); in != after {
 			return kit.Viol("wrapper:estimate", "op %d: wrapper reports %d but its delegate %d", i, after, in)
 		}
-		if op.K == "sample" && c.Cfg.Traced && !c.Cfg.Windowed {
+		if op.K == "sample" && len(folds) > 0 && b.Tap != nil && !foldsAmbiguous {
+			cur := &Sample{Start: op.S.Start, RTT: op.S.RTT, Inf: inf, Drop: op.S.Drop}
+			for _, f := range folds {
+				if cur = f.feed(*cur); cur == nil {
+					break
+				}
+			}
+			for _, f := range folds {
+				foldsAmbiguous = foldsAmbiguous || f.Ambiguous
+			}
+			if cur != nil {
+				wantTap = append(wantTap, *cur)
+			}
+			if len(b.Tap.Got) != len(wantTap) {
+				return kit.Viol("windowed:forward", "op %d %+v (in-flight %d): the algorithm behind the window(s) has received %d updates, the window rules give %d", i, op.S, inf, len(b.Tap.Got), len(wantTap))
+			}
+			if n := len(wantTap); n > 0 && b.Tap.Got[n-1] != wantTap[n-1] {
+				return kit.Viol("windowed:forward", "op %d: window #%d reached the algorithm as %+v, the exact fold is %+v", i, n, b.Tap.Got[n-1], wantTap[n-1])
+			}
+		}
+		if op.K == "sample" && c.Cfg.Traced && !c.Cfg.Windowed && c.Cfg.Outer2 != "windowed" {
 			if len(b.Tap.Got) != tapBefore+1 {
 				return kit.Viol("traced:forward", "op %d: traced limit forwarded %d samples for one OnSample", i, len(b.Tap.Got)-tapBefore)
 			}
@@ -146,8 +177,14 @@ func runC16(_ *testing.T, c c16Case) kit.Outcome {
 	if changes > 0 && len(ls) > 0 {
 		out.Labels = append(out.Labels, "changes-with-listeners")
 	}
-	if c.Cfg.Windowed && b.Tap != nil && len(b.Tap.Got) > 0 {
+	if len(folds) > 0 && b.Tap != nil && len(b.Tap.Got) > 0 {
 		out.Labels = append(out.Labels, "window-closed")
+	}
+	if c.Cfg.Outer2 != "" {
+		out.Labels = append(out.Labels, "stacked:"+c.Cfg.Outer2)
+		if len(folds) == 2 && b.Tap != nil && len(b.Tap.Got) > 0 {
+			out.Labels = append(out.Labels, "stacked-windows-both-closed")
+		}
 	}
 	return out
 }
